@@ -194,7 +194,7 @@ CHECKS["C10"] = {'design_ref': 'DESIGN.md section 6 C10',
          'the socket-level clauses of C10 (unparseable datagrams, unknown peers / connection ids, '
          'cross-contamination between connections). Assumed-and-monitored: transport legitimacy (no invented '
          'EMSGSIZE, limit >= family minimum, limit fixed before the first poll) as a guard inside '
-         'c10_step_ok. Known classes reported through known_findings.json ids KF2, D13.',
+         'c10_step_ok. Known class reported through known_findings.json id KF2 (D15 is repaired: regression example).',
  'technique': 'Coq proof (joint invariant, Hoare-style lemmas per function of VirtualSocket::poll) + '
               'differential correspondence + extracted predicates on impl traces (shared + hostile '
               'generators)',
@@ -208,23 +208,25 @@ CHECKS["C10"] = {'design_ref': 'DESIGN.md section 6 C10',
          '(offset underflow, RTO-estimator overflow, next_segment_size overflow) nor '
          'BugOffsetBeyondBufferBounds / BugRequestedLengthExceedsBufferBounds / BugInBufferComputations, and '
          'BugEmsgSizeNoProbe only if the transport answers EMSGSIZE (strict = true excludes it); state_table '
-         'reports BugRecvInClosed / BugUnexpectedPacketInSynReceived only from those two states and '
+         'reports BugUnexpectedPacketInSynReceived only from that state (no other Bug site: a closed '
+         'connection ignores every queued packet but a RESET, c10_closed_ignores_packets / _messages, repair of D15) and '
          'SynReceived never reaches the message loop; UserRx::add_remove with ST_DATA/ST_FIN never yields '
          'BugInvalidMessage / BugAssemblerMissingSlot / a panic; truncate_front by the bytes acknowledged in '
          'one poll never yields BugTruncateFront; bounded buffering (ring <= cap <= max(initial,max), user '
          'queue <= rx buffer, reassembly queue <= its slot capacity, segmented bytes <= ring). NOT proved: '
          'the invariant across process_incoming_message / recv_loop / process_all_incoming_messages '
          '(remove_up_to_ack, rtte.sample and calc_pipe panics are therefore not excluded by a theorem), the '
-         "composition through poll_body, the bound on poll's restart loop. Refutation witnesses, each "
+         "composition through poll_body, the bound on poll's restart loop. Refutation witnesses, "
          'reproduced on the real code: KF2 (peer payload size, and ACK of a never-sent MTU probe, taken as '
-         'proof for the forward path -> BugEmsgSizeNoProbe) and D13 (Pending in state Closed, then '
-         'BugRecvInClosed). The extracted predicates c10_step_ok (no PANIC, no EBUG_* under a legitimate '
+         'proof for the forward path -> BugEmsgSizeNoProbe). Regression example c10_closed_pending_regression: the '
+         'witness of the repaired D15 (Pending in state Closed, then a queued message, formerly BugRecvInClosed) now '
+         'satisfies c10_step_ok. The extracted predicates c10_step_ok (no PANIC, no EBUG_* under a legitimate '
          'transport) and c10_bounded are evaluated on every implementation trace, including a hostile '
          'generator.'}
 
 CHECKS["C02"] = {'design_ref': 'DESIGN.md section 6 C02',
  'note': 'Trusted: as C10; wakers are flags plus wake events, the harness uses one counting waker per task. '
-         'No axioms. Known classes reported through known_findings.json ids D2, D8, D9, D14.',
+         'No axioms. Known class reported through known_findings.json id D9 (D2, D8, D14 are repaired: theorems / regression examples).',
  'technique': 'Coq proof (component-level wake-up lemmas lifted to vstep) + refutation witnesses by '
               'vm_compute + differential correspondence + extracted step/trace predicates on impl traces '
               '(shared + wake-up generators)',
@@ -233,14 +235,17 @@ CHECKS["C02"] = {'design_ref': 'DESIGN.md section 6 C02',
          'wake the dispatcher parked on the TX waker; a read that returns bytes, and dropping the read half, '
          'wake the dispatcher parked on the RX waker; UserRx::flush registers the RX dispatcher waker '
          'whenever less than one creation-time MSS of window is left (the invariant behind the zero-window '
-         'wake-up, true when the MSS has not changed since creation). Refutation witnesses, each reproduced '
-         'on the real code: D2 (poll_shutdown on an idle connection wakes nobody; the next poll, when it '
-         'happens, does emit the FIN), D8 (an in-sequence FIN flushed alone wakes no reader), D9 (zero '
+         'wake-up, true when the MSS has not changed since creation); since the repairs of D2 and D8: the first '
+         'poll_shutdown on an empty ring wakes the dispatcher parked on the TX waker (c02_shutdown_wakes_ok), and a flush '
+         'that hands at least one item to the user queue - bytes or the EOF alone - wakes the parked reader '
+         '(c02_rx_flush_wakes_reader); regression examples on the former witnesses of D2, D8 and D14 '
+         '(c02_probe_expiry_rto_regression: after an expired MTU probe is popped with other segments outstanding the '
+         'retransmission timer is re-armed, c02_rto_armed holds on the whole trace). Refutation witness, reproduced '
+         'on the real code: D9 (zero '
          'window advertised against the current MSS, waker registered against the creation-time MSS). '
          'Validated on implementation traces only (no theorem yet): c02_parked_ok (a registered reader waker '
          'implies an empty user queue and a live connection), c02_timer_ok (sleep armed for the earliest '
-         'timer, self-wake when due), c02_rto_armed (outstanding data => retransmission timer armed; fails '
-         'on the real code in the D14 class), c02_prompt (write / shutdown on an idle established connection '
+         'timer, self-wake when due), c02_rto_armed (outstanding data => retransmission timer armed), c02_prompt (write / shutdown on an idle established connection '
          'followed by a poll at the same clock emits ST_DATA / ST_FIN), c02_eof_wakes, '
          'c02_zero_window_waker, c02_shutdown_wakes.'}
 
@@ -250,7 +255,8 @@ CHECKS["C17"] = {
                "every function of a poll) + differential correspondence model vs impl + extracted predicates on impl traces",
   "text": "Model: Conn/VSock.v (VirtualSocket::poll and all it calls), any congestion controller. Theorems (Props/C17.v): "
           "c17_transition_table - the whole (state, packet type) table of process_incoming_message, one conjunct per arm of the Rust "
-          "match with its guard (20 rows), c17_table_drop_unchanged (a dropped packet changes nothing, not even its ack is processed), "
+          "match with its guard (21 rows; (Closed, _) is ignored since the repair of D15, a FIN in SynAckSent is honoured only in "
+          "sequence since the repair of D19), c17_table_drop_unchanged (a dropped packet changes nothing, not even its ack is processed), "
           "c17_table_keeps_our_fin; c17_synack - complete case analysis of maybe_send_syn_ack (first SYN-ACK = ST_STATE with seq = isn, "
           "ack = remote SYN seq, state SynAckSent 1, resend timer now+200 ms; nothing before the timer; one more at expiry with k < max; "
           "error at k = max; transport pending / send error cases), c17_synack_exhausted_poll (the whole poll returns "
@@ -258,22 +264,29 @@ CHECKS["C17"] = {
           "c17_own_fin - maybe_send_fin emits at most one datagram, a FIN carrying the number recorded in FinWait1/LastAck, only when it "
           "directly follows last_sent_seq_nr, c17_own_fin_sends (and then it does), c17_transition (the number is seq_nr), "
           "c17_should_close_guard, c17_fin_after_all_data - FIN only after every accepted byte was segmented and every segment sent, "
-          "UNDER the hypothesis split_fresh (the last split_tx_queue_into_segments ran to its end); c17_peer_fin_out_of_sequence (no "
-          "change at all), c17_peer_fin (in sequence from Established: consumed, immediate ACK forced, own FIN numbered seq_nr, LastAck); "
+          "under the hypothesis split_fresh (unsegmented = ring length - segmented length, saturating); since the repair of D10 "
+          "c17_split_fresh_after: EVERY split_tx_queue_into_segments that looks at a non-empty send buffer before the peer's FIN "
+          "establishes split_fresh (the early return on an outstanding MTU probe included; c17_split_empty_ring: with an empty buffer "
+          "it only registers the waker), and c17_fin_after_all_data_in_poll: the composition split -> send_tx_queue -> "
+          "should_close_on_own_initiative exactly as in poll_body yields the conclusion with NO hypothesis on unsegmented "
+          "(send_tx_queue leaves unsegmented, the ring and the segmented length alone unless it requests a restart, "
+          "c17_send_tx_queue_uframe); since the repair of D13 c17_send_data_seq_nr_mono: send_data leaves seq_nr alone or raises it "
+          "(circular order) to one past the segment just sent, never lowers it; c17_peer_fin_out_of_sequence (no "
+          "change at all; also in SynAckSent since D19), c17_peer_fin (in sequence from Established: consumed, immediate ACK forced, own FIN numbered seq_nr, LastAck); "
           "c17_reset - a RESET at the head of the inbox past the handshake makes the same poll return StResetReceived with NOTHING "
           "emitted (no FIN, no reply), both halves closed, error queued; c17_reset_message_acks_fin / c17_reset_ok_recv_loop - the "
           "RESET acknowledging our FIN in LastAck closes without error, the rest of the poll still runs; c17_poll_frame. "
-          "REFUTED (witnesses by vm_compute, both reproduced on the real code): c17_fin_overtakes_data_refuted (D10: FIN sent with 100 "
-          "written bytes never segmented, early return of the segmentation on an unexpired MTU probe leaves unsegmented_data stale) and "
-          "c17_fin_number_collides_with_data_refuted (D13: after an RTO rewound last_sent_seq_nr, send_data! lowers seq_nr and the FIN "
-          "takes the number of an outstanding data segment). Predicates evaluated on every implementation trace: c17_synack_ok, "
+          "REGRESSIONS (vm_compute on the op lists of the former refutations): c17_fin_overtakes_data_regression (D10 repaired: with 100 "
+          "written bytes unsegmented behind an outstanding MTU probe the connection stays Established, unsegmented = 100, no FIN) and "
+          "c17_fin_number_collides_with_data_regression (D13 repaired: after the RTO rewind and the retransmission of 102 seq_nr stays "
+          "104, the FIN is numbered 104, above every data segment on the wire and outstanding). Predicates evaluated on every implementation trace: c17_synack_ok, "
           "c17_fin_after_data_ok, c17_fin_number_step_ok, c17_fin_seq_ok, c17_peer_fin_ok, c17_reset_ok, c17_reset_trace_ok.",
   "note": "Trusted: as C16, plus the connection-level correspondence (vsock component). No axioms. PARTIAL: the step/trace "
           "predicates are proved at function level (the theorems above are about maybe_send_syn_ack, maybe_send_fin, state_table, "
           "process_incoming_message, recv_loop and about whole polls for the RESET / exhausted SYN-ACK cases); the theorem 'every model "
           "step satisfies predicate P' (vstep-level, with invariant) is NOT proved for any of the seven predicates - they are "
-          "monitored on implementation traces only. split_fresh is not an invariant (D10). The FIN-numbering clause 'the number "
-          "following the last data segment' is false of the code (D13). FIN retransmission on timeout is covered by the correspondence, "
+          "monitored on implementation traces only. split_fresh after an EMPTY-buffer segmentation (the field keeps its old value) "
+          "and the whole-trace numbering invariant (every segment number below seq_nr) are not theorems. FIN retransmission on timeout is covered by the correspondence, "
           "not by a theorem.",
 }
 
@@ -308,7 +321,8 @@ CHECKS["C05"] = {
           "recovery: the new-data loop sends nothing (needs every segment >= 1 byte: c05_segment_loop_pos shows the segmentation loop keeps that); "
           "c05_after_rto_single, c05_rto_mode_single - after the RTO part retransmitted the head the counter is positive and each later call "
           "emits at most the one RTO datagram, only at a further expiry; c05_rto_mode_exit_ack / _exit_probe - the counter is reset only when "
-          "the poll's messages acknowledged or SACKed something new, or (boundary B6) when an expired MTU probe is popped; "
+          "the poll's messages acknowledged or SACKed something new (also in the poll that sees the message channel closed, since the repair "
+          "of D17), or (boundary B6) when an expired MTU probe is popped; "
           "c05_slow_start_bound_partial - PARTIAL: counted flight + sent <= cc.window at every new-data transmission; the bound 2*mss + acked "
           "bytes on that window is C15's. REFUTED on the real code (reported, not counted as violation): 'after a zero window it sends no new "
           "payload': the RTO part transmits the head segment even if it was never sent and the window is 0 (case in the note). Predicates "
@@ -339,15 +353,22 @@ CHECKS["C06"] = {
           "only from a segment in SentTime state (sent exactly once) and is not taken while Recovering; c06_stable_content_partial, "
           "c06_joint_inv_ack_then_truncate_partial - PARTIAL: under the joint invariant removed_offset = bytes truncated from the ring a "
           "datagram's payload is the slice [abs, abs+size) of the written stream, equal for two transmissions with the same (abs, size); "
-          "invariance shown only for the ack-then-truncate step. REFUTED on the real code (finding T1, reported): the poll in which the message "
-          "channel closes returns from process_all_incoming_messages before truncate_front, so a retransmission in that last poll carries other "
-          "bytes (case in the note). Predicates c06_backoff_ok, c06_cap_ok, c06_emitted_live_ok, c06_fast_retx_ok, c06_stable_plen_ok, "
-          "c06_joint_ok (Conn/C06_Pred.v) evaluated on every implementation trace.",
+          "invariance of that relation is shown for the ack-then-truncate step of the pure functions and, at the connection, for "
+          "process_all_incoming_messages as a whole: c06_joint_recv_loop, c06_joint_inv_process_all - from any state, once the receive "
+          "loop has returned (also through its channel-closed arm) the function never reports BugTruncateFront and re-establishes "
+          "removed_offset = bytes truncated; that every other function of the poll and every application event keep it is not assembled "
+          "into one theorem here (C10's vs_inv covers them function by function). Finding T1 (= D17: the poll in which the message channel "
+          "closes returned from process_all_incoming_messages before truncate_front, so a retransmission in that last poll carried other "
+          "bytes) is repaired in the code and in the model; its witness is in the note. Predicates c06_backoff_ok, c06_cap_ok, "
+          "c06_emitted_live_ok, c06_fast_retx_ok, c06_stable_plen_ok, c06_joint_ok (Conn/C06_Pred.v) evaluated on every implementation "
+          "trace; c06_joint_ok no longer stops at the closing of the inbox.",
   "design_ref": "DESIGN.md section 6 C06",
   "note": "Trusted: as C05. No axioms. Assumed-and-monitored: rto within [200 ms, 60 s] (rto_in_bounds), retransmit counts <= cap, joint ring/table "
-          "invariant until the inbox closes. Payload bytes are compared by hash in the correspondence only; the stability predicate sees sizes. "
-          "T1 witness: vsock out 1 1500 1048576 32768 1048576 0 5 10000000000 1 1 100 1 7 1048576 5 1000000 W1056,0 P M2,1,101,1048576,10,0,0,- Z "
-          "T3000000000 P (seq 102 first carries bytes 528..1055, hash 310180158; its retransmission in the last poll carries bytes 0..527, hash 361003473).",
+          "invariant after every Pending poll (whole trace). Payload bytes are compared by hash in the correspondence only; the stability "
+          "predicate sees sizes. Former T1 witness (before the repair of D17): vsock out 1 1500 1048576 32768 1048576 0 5 10000000000 1 1 100 1 "
+          "7 1048576 5 1000000 W1056,0 P M2,1,101,1048576,10,0,0,- Z T3000000000 P (seq 102 first carried bytes 528..1055; its "
+          "retransmission in the last poll carried bytes 0..527; after the repair the last poll truncates the ring first: removed_offset = "
+          "528 = bytes truncated).",
   "technique": "Coq proof (Hoare-style lemmas per function, induction over loops and ACK processing) + differential correspondence + extracted predicates on impl traces",
 }
 
@@ -451,7 +472,10 @@ CHECKS["C01"] = {'design_ref': 'DESIGN.md section 6 C01, sections 2.5, 7 (KF1)',
          'whose byte-carrying components form a guarded data-path state satisfy the property. Correspondence: the pair '
          'model agrees with two real VirtualSockets on every observation of generated loss / dup / reorder / delay / '
          'blackhole / EMSGSIZE / small-buffer / wrap / teardown schedules; c01_pair_guarded (extracted) holds on every '
-         'implementation trace, c01_pair_ok fails only inside the KF1 class.'}
+         'implementation trace, c01_pair_ok fails only inside the KF1 class. c01_pair_channel_closed_regression: the op list '
+         'that witnessed the repaired D17 (a segment retransmitted from the un-truncated ring in the poll that finds the '
+         'message channel closed) now satisfies c01_pair_ok and is outside c01_d17_class; the corresponding case under CUBIC (the former witness on the real code) runs first in the '
+         'component pair_sockdrop (message channels closed in mid-transfer), where c01_pair_ok itself must hold.'}
 
 ALL = ["C%02d" % i for i in range(1, 20)]
 NOT_APPLICABLE = {p: "check not built yet at this commit (planned: DESIGN.md section 6); not claimed"
